@@ -29,9 +29,23 @@ pub struct Ctx {
     pub tmpdir: PathBuf,
     pub out: Box<dyn Write + Send>,
     pub verbose: bool,
+    pub kind_hashes: HashSet<u64>,
 }
 
 impl Ctx {
+    /// record the node kinds of a tree (cheap: the name is rendered only for kinds not seen before)
+    pub fn seen_kinds<'a, I: IntoIterator<Item = sv_parser::RefNode<'a>>>(&mut self, it: I) {
+        use std::hash::{Hash, Hasher};
+        for n in it {
+            let mut h = std::collections::hash_map::DefaultHasher::new();
+            std::mem::discriminant(&n).hash(&mut h);
+            if self.kind_hashes.insert(h.finish()) {
+                let name = n.to_string();
+                self.sets.entry("node_kinds".to_string()).or_insert_with(BTreeSet::new).insert(name);
+            }
+        }
+    }
+
     pub fn count(&mut self, k: &str, n: u64) {
         *self.counters.entry(k.to_string()).or_insert(0) += n;
     }
